@@ -469,6 +469,22 @@ def run_xdev(desc):
                     f'reported {sorted(calls)}, expected {sorted(want)}, '
                     f'result {oc.value!r}', sig='foreign-mishandled:verify',
                     classes=classes)
+        # the same with a last_mtime that allows skipping checksums
+        if desc['api'] == 'lib':
+            oc = gem.verify_lib(root, fail_handler=lambda e: False,
+                                last_mtime=4_000_000_000, loader_kwargs=lk)
+            v = check('verify-with-last_mtime', oc,
+                      allow_mismatch=not desc['listed'])
+            if v is not None and v != 'continue':
+                return v
+            oc = updgen.run_update(
+                root, {'hashes': ['MD5'], 'sort': None, 'force': False,
+                       'target': '', 'api': 'lib', 'watermark': None,
+                       'format': None}, save=False, loader_kwargs=lk,
+                last_mtime=4_000_000_000)
+            v = check('update-with-last_mtime', oc, allow_mismatch=False)
+            if v is not None and v != 'continue':
+                return v
         # single path
         if desc['listed'] and not ignored:
             oc = gem.call(lambda: gem.loader(root, **lk)
